@@ -210,6 +210,25 @@ class Probe:
             raise exc
         return make_value(do[1], self.raised, k)
 
+    def translate(self, msgid, domain=None, mapping=None, context=None,
+                  target_language=None, default=None):
+        """The translation function handed to render(): behaves like
+        chameleon's default one, logs the call as 'T' and can be told to
+        fail at its n-th call."""
+        n = self.count.get("T", 0)
+        self.count["T"] = n + 1
+        self.history.append("T")
+        do = self.plan.get(("T", n)) or self.plan.get(("T", "*"))
+        if do is not None and do[0] == "raise":
+            exc = ZOO[do[1]]()
+            self.raised.append(("T", n, exc))
+            raise exc
+        from chameleon.i18n import simple_translate
+        return simple_translate(msgid, domain=domain, mapping=mapping,
+                                context=context,
+                                target_language=target_language,
+                                default=default)
+
 
 class Handler:
     """Recording on_error_handler."""
